@@ -348,7 +348,7 @@ def case_strategy(draw):
     return {"old": old, "new": new, "value": value}
 
 
-@prop.given("values", case_strategy(), quick=3000, thorough=200000)
+@prop.given("values", case_strategy(), quick=3000, thorough=120000)
 def check_values(case, rec):
     run(case, rec)
 
@@ -368,7 +368,7 @@ def path_case(draw):
     return {"old": old, "new": new, "path": s}
 
 
-@prop.given("single-path", path_case(), quick=6000, thorough=400000, max_shards=8)
+@prop.given("single-path", path_case(), quick=6000, thorough=240000, max_shards=8)
 def check_single_path(case, rec):
     from streamflow.cwl.utils import remap_path
 
